@@ -1436,12 +1436,12 @@ impl<'s, X: Item> VecExec<'s, $K, X> {
                 }
                 let keep_last = (op.b >> 8) & 1 == 1;
                 let what = match mode {
-                    0 => "v + w",
+                    0 => ["v + w", "v - w", "v * w", "v / w", "v % w", "v & w", "v | w", "v ^ w", "v << w", "v >> w"][((op.b >> 16) % 10) as usize],
                     1 => "v + [array]",
                     2 => "v * (tuple)",
                     3 => "v + &w",
-                    4 => "v += w",
-                    5 => "-v",
+                    4 => ["v += w", "v -= w", "v *= w", "v /= w", "v %= w", "v &= w", "v |= w", "v ^= w", "v <<= w", "v >>= w"][((op.b >> 16) % 10) as usize],
+                    5 => ["-v", "!v"][((op.b >> 16) % 2) as usize],
                     6 => "v.mul_add(w, u)",
                     7 => "Sum over a source of vectors",
                     8 => "Product over a source of vectors",
@@ -1478,7 +1478,9 @@ impl<'s, X: Item> VecExec<'s, $K, X> {
                 }
                 let op_panic = if op.f > 0 && op.f < 1000 { op.f } else { 0 };
                 let zero_panic = if op.f >= 1000 && (mode == 7 || mode == 8) { op.f - 1000 + 1 } else { 0 };
-                let src_panic = if mode == 7 || mode == 8 { (op.b >> 9) as usize } else { 0 };
+                let src_panic = if mode == 7 || mode == 8 { ((op.b >> 9) & 0x7f) as usize } else { 0 };
+                // which of the ten binary operators / their compound-assignment forms / the two unary ones
+                let which_op = op.b >> 16;
                 if op_panic > 0 || zero_panic > 0 || src_panic > 0 {
                     self.st.fault_cfg[F_ARITH_PANIC] += 1;
                 }
@@ -1523,7 +1525,7 @@ impl<'s, X: Item> VecExec<'s, $K, X> {
                     let mut operands = operands;
                     guard(allow, m(OWN_MAIN) | m(OWN_DOOMED) | m(OWN_FRESH), plan_of(Cb::Default, zero_panic), move || -> Out<<$K as Kind<X>>::V, X> {
                         match mode {
-                            0 => Out::V(<$K as Kind<X>>::v_add(v, operands.pop().unwrap())),
+                            0 => Out::V(<$K as Kind<X>>::v_binop(v, operands.pop().unwrap(), which_op)),
                             1 => Out::V(<$K as Kind<X>>::v_add_arr(v, <$K as Kind<X>>::v_into_arr(operands.pop().unwrap()))),
                             2 => Out::V(<$K as Kind<X>>::v_mul_tup(v, <$K as Kind<X>>::v_into_tup(operands.pop().unwrap()))),
                             3 => {
@@ -1532,10 +1534,10 @@ impl<'s, X: Item> VecExec<'s, $K, X> {
                             }
                             4 => {
                                 *kept_v = Some(v);
-                                <$K as Kind<X>>::v_add_assign(kept_v.as_mut().unwrap(), operands.pop().unwrap());
+                                <$K as Kind<X>>::v_assign(kept_v.as_mut().unwrap(), operands.pop().unwrap(), which_op);
                                 Out::Assigned
                             }
-                            5 => Out::V(<$K as Kind<X>>::v_neg(v)),
+                            5 => Out::V(<$K as Kind<X>>::v_unop(v, which_op)),
                             6 => {
                                 let u = operands.pop().unwrap();
                                 let w = operands.pop().unwrap();
